@@ -11,7 +11,12 @@ Driver of the C15 model (budget pre-scan and head-keyword classification). One r
                                family ∈ kql | kml | meta | none       (head keyword after trivia)
   x <hex>             -> the reference lexer's class of every character, one letter each
                          (`c` code, `s` string, `m` comment), `-` for the empty input
+  w <hex1> <hex2> <hex> <alnum>
+                      -> `yes` / `no`: does `words(&[w1, w2])` match at the start of the input
+                         (w1, w2, input in hex)
   limits              -> `<MAX_KIP_INPUT_LEN> <MAX_KIP_NESTING_DEPTH>` as generated from the source
+  wsset               -> every code point the model's `isWhitespace` accepts (all of Unicode scanned)
+  alnumset            -> every ASCII code point the model's `isAsciiAlnum` accepts
 
 Malformed requests answer `err:bad-request` (never compared with the implementation).
 -/
@@ -73,6 +78,16 @@ def handle (line : String) : String :=
       let t := refLex s
       if t.isEmpty then "-" else String.ofList (t.map (fun p => showCls p.2))
     | none => "err:bad-request"
+  | ["w", h1, h2, hex, alnum] =>
+    match decodeInput h1, decodeInput h2, decodeInput hex, natList? alnum with
+    | some w1, some w2, some s, some cps =>
+      let uni : Char → Bool := fun c => cps.contains c.toNat
+      if matchWords uni [w1, w2] s then "yes" else "no"
+    | _, _, _, _ => "err:bad-request"
+  | ["wsset"] =>
+    showNats ((List.range 0x110000).filter (fun n => isWhitespace (Char.ofNat n) && (Char.ofNat n).toNat == n))
+  | ["alnumset"] =>
+    showNats ((List.range 0x80).filter (fun n => isAsciiAlnum (Char.ofNat n)))
   | ["limits"] =>
     toString Gen.KipLimits.maxKipInputLen ++ " " ++ toString Gen.KipLimits.maxKipNestingDepth
   | _ => "err:bad-request"
